@@ -55,6 +55,13 @@ def run(chk):
     inits = [s for s in fn.body if isinstance(s, ast.Assign) and isinstance(s.value, (ast.Call, ast.Dict))
              and norm(s.value) in ("OrderedDict()", "{}", "dict()", "collections.OrderedDict()")]
     loops = [l for l in fn.body if isinstance(l, ast.For)]
+    adj = aud.adjacent_grouping(fn)
+    if adj:
+        # records of one card need not be adjacent (a RAIRE file lists contest after contest): itertools.groupby merges runs
+        chk.ob("C18.R1", where, "one-record-per-id-in-first-appearance-order", False,
+               "one record per identifier: records are collected in a mapping keyed by the id (groupby over the unsorted list "
+               "groups adjacent records only)", node=adj[0], grouping=[norm(c_)[:80] for c_ in adj])
+        return
     if len(inits) != 1 or len(loops) != 1:
         raise AnalysisError("merge_cvrs: expected one mapping initialisation and one loop")
     od = norm(inits[0].targets[0])
